@@ -78,7 +78,7 @@ pub fn check(c: &KaCase, st: &mut Stats) -> Result<(), Viol> {
         // some clients re-open a capability negotiation after registration and never end it:
         // keep-alive must not depend on that
         if s.chance(25) {
-            w.send_line(conn, ["CAP LS 302", "CAP REQ :multi-prefix", "CAP LIST"][s.pick(3)]);
+            w.send_line(conn, ["CAP LS 302", "CAP REQ :multi-prefix", "CAP LIST", "CAP END", "CAP REQ :multi-prefix\r\nCAP END"][s.pick(5)]);
             w.settle();
             w.drain(conn);
             log.push(format!("t={} {} sent a CAP command after registration", w.now_ms(), nick));
@@ -179,6 +179,39 @@ pub fn check(c: &KaCase, st: &mut Stats) -> Result<(), Viol> {
                     1 => format!("PING :{}", t),
                     _ => format!("PING {}", t),
                 };
+                // every now and then a PING with an empty token first: it is answered (with the
+                // empty token) like any other
+                if clients[ci].my_pings % 5 == 4 {
+                    w.send_line(conn, "PING :");
+                    w.settle();
+                    let ls = w.drain(conn);
+                    let mut ok = false;
+                    for l in &ls {
+                        if l.contains(" PONG ") {
+                            ok = l.ends_with(" :");
+                        } else if l.contains(" PING ") {
+                            clients[ci].pings.push(w.now_ms());
+                            log.push(format!("t={} {} < {} (seen while waiting for its own PONG)", w.now_ms(), clients[ci].nick, l));
+                            let k = clients[ci].pings.len();
+                            let answer = match clients[ci].pattern {
+                                Pattern::Always | Pattern::AlwaysOddToken => true,
+                                Pattern::Never => false,
+                                Pattern::StopsAfter(m) => k <= m,
+                            };
+                            if answer {
+                                w.send_line(conn, "PONG :LALAL");
+                                clients[ci].answered += 1;
+                            } else if clients[ci].first_unanswered.is_none() {
+                                clients[ci].first_unanswered = Some(w.now_ms());
+                            }
+                        } else if l.contains(" ERROR") {
+                            clients[ci].error_seen = true;
+                        }
+                    }
+                    if !ok && !w.conns[conn].eof {
+                        return Err(fail("C17.pong_echoes_token", "no-pong-empty-token".into(), format!("{} sent `PING :` and got {:?}", clients[ci].nick, ls), &log));
+                    }
+                }
                 w.send_line(conn, &form);
                 w.settle();
                 let ls = w.drain(conn);
